@@ -115,6 +115,7 @@ def _gpt_case(draw):
             'dir_mode': draw(st.booleans()), 'program': prog,
             'param_dtype': draw(st.sampled_from(['float32', 'float32', 'bfloat16', 'float16'])),
             'heuristic': draw(st.sampled_from(['compute', 'compute', 'memory'])),
+            'seq': draw(st.sampled_from([0, 0, 2])),
             'factor_dtype': draw(st.sampled_from([None, None, 'float32', 'bfloat16'])),
             'inv_dtype': draw(st.sampled_from([None, None, 'float64'])),
             'schedule': draw(st.lists(st.integers(0, 63), max_size=250)), 'flip': draw(st.booleans())}
